@@ -450,6 +450,8 @@ pub fn check_against_fold(
                     .collect();
                 let mut deps = deps;
                 deps.sort();
+                // a dependency named twice in the submit is one dependency
+                deps.dedup();
                 expect_pending.insert(TaskId::new(*j, (*id).into()), deps);
             }
         }
@@ -790,6 +792,7 @@ async fn drain_restored(sim: &mut Sim, cut: CutResult, prefix: &[Event], f: &Fol
     let mut mon = Monitors::default();
     mon.load_base(prefix, &cut.world);
     let mut sim2 = Sim {
+        genv: sim.genv,
         world: cut.world,
         obs: obs2.clone(),
         mon,
